@@ -109,21 +109,33 @@ def orderIter (succ : List Nat) : Nat → List Nat → List Nat
   | 0, t => t
   | n + 1, t => orderIter succ n (orderStep succ t)
 
-/-- `t` contains the direct successors and is transitively closed. -/
-def orderClosed (succ t : List Nat) : Bool :=
-  t.length == succ.length &&
-  (List.range succ.length).all fun m =>
-    (succ.getD m 0 &&& t.getD m 0) == succ.getD m 0 &&
-    (List.range succ.length).all fun k => !(hasBit (t.getD m 0) k) || (t.getD k 0 &&& t.getD m 0) == t.getD k 0
+/-- Every mutex id that occurs is below `nm`. -/
+def inRange (nm : Nat) (fs : List Fn) : Bool :=
+  fs.all fun f => f.acquires.all (· < nm) && f.heldAcq.all (fun (m, k) => m < nm && k < nm) &&
+    f.heldCalls.all (fun (m, _) => m < nm)
+
+/-- `t` covers every order edge: what is acquired lexically under `m`, and everything the callees of calls
+made under `m` can acquire (their closed masks `r`). Checked directly on the facts, so that how `t` was
+computed (`orderSucc`, `orderIter`) is not trusted. -/
+def orderCovers (fs : List Fn) (r t : List Nat) : Bool :=
+  fs.all fun f =>
+    (f.heldCalls.all fun (m, g) => (r.getD g 0 &&& t.getD m 0) == r.getD g 0) &&
+    (f.heldAcq.all fun (m, k) => hasBit (t.getD m 0) k)
+
+/-- `t` is transitively closed. -/
+def orderTrans (nm : Nat) (t : List Nat) : Bool :=
+  (List.range nm).all fun m => (List.range nm).all fun k =>
+    !(hasBit (t.getD m 0) k) || (t.getD k 0 &&& t.getD m 0) == t.getD k 0
 
 /-- No cycle among the mutexes tagged `tags` (tag 0 counts for everybody): nobody reaches itself. The
 self-edge is excluded already by `noNested`; here it would also show, conservatively. -/
 def acyclic (tags mutexTags : List Nat) (fs : List Fn) : Bool :=
   let r := closure fs
-  let succ := orderSucc mutexTags.length fs r
+  let nm := mutexTags.length
+  let succ := orderSucc nm fs r
   let t := orderIter succ 6 succ
-  wellNumbered fs && closed fs r && orderClosed succ t &&
-  (List.range mutexTags.length).all fun m => !(relevant tags mutexTags m) || !(hasBit (t.getD m 0) m)
+  wellNumbered fs && closed fs r && inRange nm fs && orderCovers fs r t && orderTrans nm t &&
+  (List.range nm).all fun m => !(relevant tags mutexTags m) || !(hasBit (t.getD m 0) m)
 
 /-- f0 takes mutex 1 under mutex 0, f1 takes mutex 0 under mutex 1: a cycle; one direction only: fine. -/
 example : acyclic [1] [1, 1] [⟨0, [0, 1], [], [], [], [], [(0, 1)]⟩, ⟨1, [0, 1], [], [], [], [], [(1, 0)]⟩] = false ∧
